@@ -635,14 +635,19 @@ def oracle(c):
         return None
     if k == 'angle':
         v, w = d['v'], d['w']
-        got = float(linalg.vector_angle_between(qs(v), qs(w), degrees=d['deg']))
         dot = sum((a * b for a, b in zip(v, w)), F(0))
-        nv = math.sqrt(sum((a * a for a in v), F(0))); nw = math.sqrt(sum((a * a for a in w), F(0)))
-        want = math.acos(max(-1.0, min(1.0, float(dot) / (nv * nw))))
-        if d['deg']:
-            want = math.degrees(want)
-        if abs(got - want) > 1e-6 * max(1.0, abs(want)):
-            return "vector_angle_between gives %r, the angle is %r (%s)" % (got, want, 'degrees' if d['deg'] else 'radians')
+        n2 = sum((a * a for a in v), F(0)) * sum((a * a for a in w), F(0))
+        cos2 = dot * dot / n2                                  # exact cos^2
+        try:
+            got = float(linalg.vector_angle_between(qs(v), qs(w), degrees=d['deg']))
+        except ValueError:
+            # |cos| = 1 up to rounding (parallel vectors): dot/(|v||w|) may come out as 1 + 2^-52 and acos refuses it
+            return None if cos2 > 1 - F(1, 10 ** 12) else "vector_angle_between raises ValueError for vectors that are not parallel"
+        rad = math.radians(got) if d['deg'] else got
+        want_cos = math.copysign(math.sqrt(float(cos2)), float(dot))
+        # compared through the cosine (acos is ill-conditioned next to +-1); the angle itself must lie in [0, pi]
+        if not (-1e-12 <= rad <= math.pi + 1e-12) or abs(math.cos(rad) - want_cos) > 1e-9:
+            return "vector_angle_between gives %r (%s), its cosine is %r, the vectors' cosine is %r" % (got, 'degrees' if d['deg'] else 'radians', math.cos(rad), want_cos)
         return None
     if k == 'tri':
         from geomdl import elements
